@@ -529,9 +529,19 @@ class Impl(object):
             g = (t.get_webentities_links_slow if slow else t.get_webentities_links)(out=out, include_auto=auto)
             return render_graph(g)
         if q == "expand":
-            return "ok " + brack([hx(x) for x in t.expand_prefix(unx_arg(w[1]))])
+            res = t.expand_prefix(unx_arg(w[1]))
+            out = "ok " + brack([hx(x) for x in res])
+            if isinstance(res, list):        # the answer is the caller's to keep: what a caller does to it must not reach the index
+                res.sort(reverse=True)
+                del res[1:]
+            return out
         if q == "variations":
-            return "ok " + brack([hx(x) for x in H.lru_variations(unx(w[1]))])
+            res = H.lru_variations(unx(w[1]))
+            out = "ok " + brack([hx(x) for x in res])
+            if isinstance(res, list):
+                res.sort(reverse=True)
+                del res[1:]
+            return out
         if q == "linksiter":
             return "ok " + brack(sorted(hx(a) + ">" + hx(b) for a, b in t.links_iter(out=(w[1] == "1"))))
         if q == "pagesiter":
